@@ -400,6 +400,8 @@ class ExprMixin:
             return self.wrap(z3.Select(coll.arr, self.z(x)), "bool")
         if type(coll).__name__ == "VOptRefMap":
             return self.wrap(z3.Select(coll.present, self.z(x)), "bool")
+        if type(coll).__name__ == "VPredSet":
+            return self.wrap(coll.member(self.z(x)), "bool")
         if isinstance(coll, VSet):
             if not is_const(x):
                 ts = [z3.And(self.b(self.truth(self.eq(k, x))), self.b(m)) for k, m in coll.members.items()]
@@ -653,6 +655,25 @@ class ExprMixin:
     # ------------------------------------------------------------------ comprehensions
     def e_ListComp(self, n):
         return self.comprehension(n, as_list=True)
+
+    def e_SetComp(self, n):
+        """{f(x) for x in xs}: over a concrete sequence a python set of the values (constants only); over a symbolic list a
+        set known through an uninterpreted membership predicate of which every produced element is a member"""
+        lst = self.comprehension(n, as_list=True)
+        if isinstance(lst, list):
+            if all(is_const(x) for x in lst):
+                return set(lst)
+            raise GenError("set comprehension with symbolic elements over a concrete sequence")
+        from .values import VPredSet
+        ek = lst.elem if isinstance(lst.elem, str) else None
+        if ek not in ("int", "str"):
+            raise GenError("set comprehension of %r" % (lst.elem,))
+        srt = Int if ek == "int" else self.th.Str
+        marr = z3.Const("setcomp!%d" % lst.uid, z3.ArraySort(srt, z3.BoolSort()))      # (an array, so that membership tests are
+        member = lambda t: z3.Select(marr, t)                                           # Select terms: instantiation candidates)
+        lc = lst.copy()
+        self.hyps.append(FAll("k", 0, lc.length, lambda c: FT(member(self.z(self.list_get(lc, c)))), "set comprehension"))
+        return VPredSet(member, ek)
 
     def e_GeneratorExp(self, n):
         return self.comprehension(n, as_list=True)
